@@ -112,8 +112,7 @@ theorem malloc_core (cfg : Cfg) {b : LB α} {q : Q α} (hR : R b q) (hd : q.dead
     · simp [Node.mallocFill]; omega
     · simp only [Node.mallocFill]; omega
   · intro _ c cp hc
-    have := hR.cache hd c cp hc
-    simpa [Q.flushedBytes, f1] using this
+    exact leadBytes_prefix_append q _ c (hR.cache hd c cp hc)
 
 theorem malloc_refines [DecidableEq α] (cfg : Cfg) {b : LB α} {q : Q α} (hR : R b q) (n : Int) (d : List α)
     (hC : Contract q (.malloc n d) = true) :
@@ -205,8 +204,7 @@ theorem writeBinary_refines [DecidableEq α] (cfg : Cfg) {b : LB α} {q : Q α} 
             fun h => by cases h⟩
         | succ j => simp at hj
       · intro _ c cp hc
-        have := hR.cache hd c cp hc
-        simpa [Q.flushedBytes, f1] using this
+        exact leadBytes_prefix_append q _ c (hR.cache hd c cp hc)
     · simp only [hbig, if_false]
       obtain ⟨g, nd, e1, e2, hR'⟩ := malloc_core cfg hR hd hro p (by omega) true (fun _ => rfl)
       rw [e1]; simp only [e2]
